@@ -69,7 +69,7 @@ def gen_flow(rng, tier):
             "cvm": latent in ("truncated_gaussian", "uniform_nball") and rng.random() < 0.6,
             "radius": rng.choice([1.5, 2.5]), "expansion": rng.choice([None, 4.0]),
             "flow": "trained" if i % 4 == 1 else "real", "scale": 1.0, "shift": 0.0, "special": False,
-            "max_batches": 200, "npop": 2, "max_samples": None, "cls": cls})
+            "max_batches": 0, "npop": 2, "max_samples": None, "cls": cls})
     for c in cases:
         if not c["max_batches"]:
             c["max_batches"] = 60 + 600 // c["drawsize"]
@@ -132,9 +132,9 @@ def gen_real(chk, rng, tier):
         {"sampler": "standard", "prior": "uniform", "nlive": 40, "max_it": 160 if tier == "quick" else 600,
          "seed": 300 + chk.seed, "output": base + "/aug", "cls": "augmentedflowproposal"},
     ]
+    out.append({"sampler": "standard", "prior": "steps", "nlive": 40, "max_it": 150 if tier == "quick" else 500,
+                "seed": 400 + chk.seed, "output": base + "/ana", "analytic": True})
     if tier != "quick":
-        out.append({"sampler": "standard", "prior": "steps", "nlive": 60, "max_it": 500, "seed": 400 + chk.seed,
-                    "output": base + "/ana", "analytic": True})
         out.append({"sampler": "standard", "prior": "nobounds", "nlive": 60, "max_it": 700, "seed": 500 + chk.seed,
                     "output": base + "/nb", "extra": {"latent_prior": "uniform_nball", "constant_volume_mode": False}})
     return out
@@ -253,11 +253,14 @@ def run(chk):
     job = {"flow": gen_flow(rng, chk.tier), "rej": gen_rej(rng, chk.tier), "radial": gen_radial(rng, chk.tier),
            "prims": [{"pairs": gen_prims(rng, chk.tier)}]}
     ins_job = {"ins": gen_ins(rng, chk.tier)}     # own process: the importance sampler adds global live-point fields
+    if chk.tier != "quick":
+        job["stat"] = [{"seed": rng.randrange(1 << 30), "prior": pr, "N": 1500, "acc": a}
+                       for pr, a in (("uniform", False), ("steps", False), ("corner", True))]
     real = gen_real(chk, rng, chk.tier)
     os.makedirs(os.path.join(chk.build, "runs"), exist_ok=True)
     with ThreadPoolExecutor(max_workers=2 + len(real)) as ex:
         fut = ex.submit(chk.child, "c09_child.py", (), 1500, None, json.dumps(job))
-        futs = [ex.submit(chk.child, "c09_child.py", (), 900 if chk.tier == "quick" else 2400, None,
+        futs = [ex.submit(chk.child, "c09_child.py", (), 300 if chk.tier == "quick" else 2400, None,
                           json.dumps({"real": [r]})) for r in real]
         fut_ins = ex.submit(chk.child, "c09_child.py", (), 900, None, json.dumps(ins_job))
         rc, out, err = fut.result()
@@ -329,6 +332,9 @@ def run(chk):
             ids = pop.get("pool", [])
             minlq = cOpt(cE(pop["minlq"])) if c["trunc"] else "None"
             bl = cL(map(lit_batch, pop["batches"]))
+            if len(bl) > 200000:
+                chk.count("flow:literal-too-large-for-the-in-Coq-comparison")      # only capped (still looping) cases get here
+                continue
             if c["acc"]:
                 maxs = c["max_samples"] if c["max_samples"] is not None else 1000000
                 accl.append(cT(cB(strict), minlq, cN(c["N"]), cN(maxs), bl, cL(map(cE, pop["final_us"])), cN(kind),
@@ -426,6 +432,12 @@ def run(chk):
         if not (r["oracle_monotone"] and r["oracle_inverse"]):
             chk.oblige("oracle hypothesis: gammaincinv monotone and inverse of gammainc", "oracle", False, json.dumps(c))
         chk.oracle_validations += 2
+    # ---- statistical clause: validation only ------------------------------------------------------------------------
+    for c, r in zip(job.get("stat", []), res.get("stat", [])):
+        chk.oracle_validations += 1
+        chk.notes.append({"two_sample_validation_only": {"case": c, "result": r}})
+        ps = [v for k, v in r.items() if k.startswith("ks_p_")]
+        chk.count("two-sample:p>0.001" if ps and min(ps) > 1e-3 else "two-sample:p<=0.001-or-error")
     # ---- real runs --------------------------------------------------------------------------------------------------
     for c, (rc2, out2, err2) in zip(real, real_res):
         chk.evaluations += 1
